@@ -1,5 +1,7 @@
 """C17  cancel hits exactly the selected targets' jobs; one failure stops nothing else."""
 
+import re
+
 from hypothesis import strategies as st
 
 from vlib import gen, hist, model, project, simsched
@@ -26,7 +28,7 @@ ASSUMPTIONS = [
 ]
 BUDGET = {
     "quick": {"examples": 250, "wall_s": 100, "shards": 4},
-    "thorough": {"examples": 2500, "wall_s": 1200, "shards": 16},
+    "thorough": {"examples": 6000, "wall_s": 1500, "shards": 16},
 }
 
 CANCEL_CMD = {"slurm": "scancel", "sge": "qdel", "lsf": "bkill"}
@@ -164,7 +166,10 @@ def run_case(case):
         unc = sorted({n for n in selected if n not in tracked} | {n for n in sel_tracked if latest[n].id in failed_ids})
         text = r.out + r.err
         for n in unc:
-            if f"Target {n} could not be cancelled" not in text:
+            # wording is free; the target must be named somewhere beyond the "Cancelling target <name>" progress line
+            word = re.compile(r"(?<![A-Za-z0-9_.])" + re.escape(n) + r"(?![A-Za-z0-9_.])")
+            mentions = sum(1 for line in text.splitlines() if word.search(line))
+            if mentions < 2 and not word.search(r.out):
                 viols.append(Violation({"kind": "uncancellable-not-reported"},
                                        f"{n} could not be cancelled but is not named in the output: {text[-400:]!r}"))
         # afterwards
